@@ -436,6 +436,35 @@ func (m *machine) entityRemoved(t *rapid.T) {
 	m.othersUntouchedAndServed(t, victim, before, "entity-removal")
 }
 
+// entityReannounced: the peer announces its entity [2] again while it is known (a repeated
+// "added" entry with the unchanged feature set). Nothing may change; the stack re-creates the
+// feature objects, and later removals must still find the entries that refer to them.
+func (m *machine) entityReannounced(t *rapid.T) {
+	pi := m.live(t, "peer")
+	if m.ent2Gone[pi] {
+		t.Skip("entity removed")
+	}
+	p := m.w.Peers[pi]
+	before := map[int]snap{}
+	for i := range m.w.Peers {
+		before[i] = m.snapshot(i)
+	}
+	added := model.NetworkManagementStateChangeTypeAdded
+	cmd := model.CmdType{Function: ptr(model.FunctionTypeNodeManagementDetailedDiscoveryData), Filter: []model.FilterType{*model.NewFilterTypePartial()},
+		NodeManagementDetailedDiscoveryData: p.DiscoveryData([]world.EntSpec{regs.PeerEntities()[1]}, &added)}
+	p.Send(p.Msg(model.CmdClassifierTypeNotify, p.NM(), world.LocalNM(), false, nil, cmd))
+	m.w.Sync()
+	p.Cap.Drain()
+	m.w.Events.Drain()
+	m.logf("peer%d announces entity [2] again (unchanged)", pi+1)
+	m.ops = append(m.ops, "entity-reannounced")
+	for i := range m.w.Peers {
+		if after := m.snapshot(i); !reflect.DeepEqual(before[i], after) {
+			world.Fail(t, "C10/reannouncement-changed-state", "re-announcing an unchanged entity of peer%d changed the state of peer%d\n before: %+v\n after:  %+v%s", pi+1, i+1, before[i], after, m.history())
+		}
+	}
+}
+
 func nz(l []string) []string {
 	if l == nil {
 		return []string{}
@@ -467,6 +496,7 @@ func TestTeardown(t *testing.T) {
 			"dataChange":    m.dataChange,
 			"disconnect":    m.disconnect,
 			"entityRemoved": m.entityRemoved,
+			"entityReannounced": m.entityReannounced,
 		})
 		// let every approval timer expire, then change data once more: the removed connections
 		// must have stayed silent
@@ -499,4 +529,95 @@ func TestTeardown(t *testing.T) {
 			world.Sample(map[string]any{"history": m.hist})
 		}
 	}))
+}
+
+
+// TestTeardownStress: real goroutines. While one connection is removed (its peer holds several
+// subscriptions and bindings, so the removal takes a while and publishes events), other peers
+// subscribe and bind on their own connections. Every call that was answered with success must be
+// in the registry afterwards, nothing of the removed peer may be left, and nothing else may be lost.
+func TestTeardownStress(t *testing.T) {
+	rounds := world.EnvInt("VERIF_ROUNDS", 150)
+	world.Guard(func() {
+		for r := 0; r < rounds; r++ {
+			w := regs.New(3)
+			victim, a, b := w.Peers[0], w.Peers[1], w.Peers[2]
+			// the victim holds state on every server feature it can
+			for si, srv := range w.Servers {
+				for _, c := range regs.ClientRefs[:6] {
+					victim.CallOK(world.SubscribeCall(victim.FA(c.Ent, c.Feat), srv.F.Address(), srv.Type))
+				}
+				_ = si
+			}
+			b.CallOK(world.SubscribeCall(b.FA([]uint{1}, 1), w.Servers[0].F.Address(), w.Servers[0].Type)) // must survive
+			type call struct {
+				p       *world.Peer
+				d       model.DatagramType
+				key     string
+				binding bool
+			}
+			var calls []call
+			for _, c := range []regs.Ref{{Ent: []uint{1}, Feat: 1}, {Ent: []uint{2}, Feat: 1}, {Ent: []uint{1}, Feat: 2}, {Ent: []uint{1}, Feat: 5}, {Ent: []uint{2}, Feat: 2}, {Ent: []uint{1}, Feat: 3}} {
+				for si, srv := range w.Servers {
+					ok := false
+					for _, e := range regs.PeerEntities() {
+						for _, f := range e.Feats {
+							if reflect.DeepEqual(e.Addr, c.Ent) && f.ID == c.Feat && f.Type == srv.Type {
+								ok = true
+							}
+						}
+					}
+					if !ok {
+						continue
+					}
+					d := a.Msg(model.CmdClassifierTypeCall, a.NM(), world.LocalNM(), true, nil, world.SubscribeCall(a.FA(c.Ent, c.Feat), srv.F.Address(), srv.Type))
+					calls = append(calls, call{a, d, fmt.Sprintf("%s->%s", c, regs.ServerRefs[si]), false})
+				}
+			}
+			start := make(chan struct{})
+			var wg sync.WaitGroup
+			wg.Add(2)
+			go func() {
+				defer wg.Done()
+				<-start
+				w.Local.RemoveRemoteDeviceConnection(victim.Ski)
+			}()
+			go func() {
+				defer wg.Done()
+				<-start
+				for _, c := range calls {
+					c.p.Send(c.d)
+				}
+			}()
+			close(start)
+			wg.Wait()
+			victim.Gone = true
+			w.Sync()
+			granted := map[string]bool{}
+			for _, s := range a.Cap.Drain() {
+				for _, c := range calls {
+					if s.Ref() != nil && *s.Ref() == *c.d.Header.MsgCounter && s.ErrorNumber() == 0 {
+						granted[c.key] = true
+					}
+				}
+			}
+			have := map[string]bool{}
+			for _, e := range w.Local.SubscriptionManager().Subscriptions(a.Dev) {
+				have[fmt.Sprintf("%s->%s", refOf(e.ClientFeature.Address()), refOf(e.ServerFeature.Address()))] = true
+			}
+			world.Record(world.Hash("stress", r), true, "stress/teardown-vs-subscribe")
+			for k := range granted {
+				if !have[k] {
+					world.Fail(t, "C10/concurrent/granted-subscription-lost", "round %d: peer2's subscription %s was answered with success while peer1 was being removed, but it is not in the registry afterwards (registry of peer2: %v)", r, k, have)
+				}
+			}
+			if n := len(w.Local.SubscriptionManager().Subscriptions(victim.Dev)); n != 0 {
+				world.Fail(t, "C10/concurrent/removed-device-state-left", "round %d: %d subscriptions of the removed peer are left", r, n)
+			}
+			if n := len(w.Local.SubscriptionManager().Subscriptions(b.Dev)); n != 1 {
+				world.Fail(t, "C10/concurrent/other-peer-lost-state", "round %d: the uninvolved peer3 has %d subscriptions, expected 1", r, n)
+			}
+			w.Teardown()
+		}
+	})
 }
